@@ -105,7 +105,8 @@ Definition p_dcfg_ok (c : p_cfg) (x : nat) : bool :=
   forallb (p_act_self x) (pc_rs dc ++ pc_ws dc ++ pc_cs dc) &&            (* G1 *)
   negb (pc_doc dc) &&                                                       (* G2 *)
   (p_is_sock c x || negb (existsb p_is_addw (pc_rs dc ++ pc_ws dc ++ pc_cs dc))) &&   (* G3 *)
-  p_script_ok (pc_rs dc) && p_script_ok (pc_cs dc).                         (* G4 *)
+  p_script_ok (pc_rs dc) && p_script_ok (pc_cs dc) &&                       (* G4 *)
+  negb (p_refused c x).                                                     (* G5 *)
 (* the guard of c16_backends_agree_per_descriptor, for ONE descriptor d: no OTHER descriptor's callback aims an
    action at d (d's own callbacks may add/remove anything); d is not delete_on_close; d's own scripts register d
    for writing only if d is a socket; the part of d's read / close script that is aimed at d satisfies G4 *)
@@ -117,7 +118,8 @@ Definition p_d_ok (c : p_cfg) (d : nat) : bool :=
   negb (pc_doc dc) &&
   (p_is_sock c d || negb (existsb p_is_addw (filter (fun a => p_act_target a =? d) (pc_rs dc ++ pc_ws dc ++ pc_cs dc)))) &&
   p_script_ok (filter (fun a => p_act_target a =? d) (pc_rs dc)) &&
-  p_script_ok (filter (fun a => p_act_target a =? d) (pc_cs dc)).
+  p_script_ok (filter (fun a => p_act_target a =? d) (pc_cs dc)) &&
+  negb (p_refused c d).                    (* G5: the epoll interface accepts d *)
 Definition p_ops_ok_d (c : p_cfg) (d : nat) (ops : list p_op) : bool :=
   forallb (fun o => match o with POAddW x => negb (x =? d) || p_is_sock c d | _ => true end) ops.
 
